@@ -25,6 +25,8 @@ Good ==
   \cup { St("litwrap:" \o v, SExpr(Asg(v, Obj(<<"in", "arr">>, <<Id(Other(v)), Arr(<<Id(Other(v))>>)>>)))) : v \in {"o"} }     \* an existing object as a value of a literal: shared, not copied
   \cup { St("delnf:" \o v \o "." \o IntStr(i), SExpr(Call(Id("delkey"), <<Id(v), Lit(VStr(IF i = 1 THEN <<2527>> ELSE <<2479, 2492>>))>>))) : v \in {"o"}, i \in {1, 2} }
   \cup { St("chain:" \o v, SPrint(PAsg(Id(v), "a", PAsg(Id(Other(v)), "b", Fresh)))) : v \in Vars }       \* the value of a property assignment is the assigned value
+  \cup { St("mktwins", SBlock(<< SExpr(Asg("o", Call(Id("mkrec"), <<>>))), SExpr(Asg("p", Call(Id("mkrec"), <<>>))), SExpr(PAsg(Prop(Id("o"), "in"), "z", Fresh)),      \* two objects from one literal site share nothing
+                                  SExpr(IAsg(Prop(Id("p"), "arr"), Num(0), Fresh)) >>)) }
   \cup { St("writenil:" \o v \o "." \o k, SExpr(PAsg(Id(v), k, Lit(VNil)))) : v \in Vars, k \in {"a"} }     \* a property holding nil exists
   \cup { St("litnil:" \o v, SExpr(Asg(v, Obj(<<"b", "a">>, <<Lit(VNil), Lit(VNil)>>)))) : v \in {"o"} }
   \cup { St("del:" \o v \o "." \o k, SExpr(Call(Id("delkey"), <<Id(v), Str(k)>>))) : v \in Vars, k \in Keys3 }
@@ -53,6 +55,7 @@ Randoms == [k \in 1..NRandom |-> RHist(SeedProp * 4096 + k, 1, RandLen)]
 Show == << SPrint(Id("o")), SPrint(Id("p")), SPrint(Call(Id("keys"), <<Id("o")>>)), SPrint(Call(Id("values"), <<Id("o")>>)), SPrint(Call(Id("keys"), <<Id("o")>>)),
            SPrint(Call(Id("values"), <<Id("p")>>)), SPrint(Call(Id("keys"), <<Id("p")>>)) >>
 Prelude == << SFun("wr", <<"x">>, <<SExpr(PAsg(Id("x"), "c", Fresh))>>), SVar("q", Num(7)),
+              SFun("mkrec", <<>>, <<SReturn(Obj(<<"k", "in", "arr">>, <<Num(1), Obj(<<"z">>, <<Num(0)>>), Arr(<<Num(0)>>)>>))>>),
               SVar("o", Obj(<<"a", "b">>, <<Num(1), Num(2)>>)), SVar("p", Obj(<<"z">>, <<Num(3)>>)) >> \o Show
 RECURSIVE Body(_)
 Body(h) == IF h = <<>> THEN <<>> ELSE <<h[1].s>> \o Show \o Body(Tail(h))
